@@ -41,6 +41,15 @@ def _derive_bytes(spec: typing.Any, case: typing.Any, with_header: bool) -> typi
         return bytes.fromhex(case["bytes"]), None, kind
     if kind == "ones":
         return b"\xff" * (case["n"] % 80), None, kind
+    if kind == "inflate":
+        # every delimited object (at every nesting level) may carry bytes after what this revision of its type knows - written by
+        # a newer, longer revision - with all enclosing headers counting them: "new data, old schema", several levels deep.
+        # Such payloads may exceed the extent of the reader's revision; they are skipped, never rejected.
+        plan = iter([(e % 12 if e % 3 else 0, f % 256) for e, f in case["extra"]] + [(0, 0)] * 64)
+        enc = codec.encode(spec, case["value"], with_header, inflate=plan)
+        data = codec.bits_to_bytes(enc.bits)
+        cut = case.get("cut", 0)
+        return (data if cut % 4 else data[: cut // 4 % (len(data) + 1)]), None, kind
     enc = codec.encode(spec, case["value"], with_header)
     valid = codec.bits_to_bytes(enc.bits)
     if kind == "header":
@@ -132,6 +141,20 @@ def check_bytes(case: typing.Any, ctx: Ctx) -> Info:
     strided = cc.deserialize_outcome(t, spec, memoryview(inter)[::2], with_header, what="deserialize-strided-memoryview")
     require(cc.same_outcome(spec, strided, got), "buffer-isolation:strided", got, strided, detail)
 
+    # the byte string is what counts, not the item format / shape of the buffer that holds it
+    if data:
+        raw = bytearray(data)
+        shapes: typing.List[typing.Any] = [memoryview(raw).cast("b"), memoryview(raw).cast("c")]
+        for fmt, size in (("H", 2), ("I", 4), ("Q", 8), ("h", 2), ("f", 4)):
+            if len(raw) % size == 0:
+                shapes.append(memoryview(raw).cast(fmt))
+        for rows in (2, 3):
+            if len(raw) % rows == 0 and len(raw) > rows:
+                shapes.append(memoryview(raw).cast("B", (rows, len(raw) // rows)))
+        for view in shapes[case.get("zeros", 0) % len(shapes) :][:2]:
+            shaped = cc.deserialize_outcome(t, spec, view, with_header, what="deserialize-shaped-memoryview")
+            require(cc.same_outcome(spec, shaped, got), "buffer-format-changes-outcome", got, shaped, detail + " as memoryview format %s shape %s" % (view.format, view.shape))
+
     ends_inside = valid is not None and len(data) < len(valid)
     if kind == "random":
         ends_inside = len(data) < cc.max_bytes(spec, with_header) and got[0] == "ok" and len(
@@ -206,10 +229,13 @@ def _cases(large: bool = False) -> st.SearchStrategy:
             elif kind == "header":
                 base["which"] = st.integers(0, 7)
                 base["new"] = st.integers(0, 1 << 10)
+            elif kind == "inflate":
+                base["extra"] = st.lists(st.tuples(st.integers(0, 1 << 10), st.integers(0, 255)), min_size=1, max_size=8)
+                base["cut"] = st.integers(0, 4096)
         base["junk"] = st.binary(min_size=1, max_size=12).map(bytes.hex)
         return st.fixed_dictionaries(base)
 
-    kinds = st.sampled_from(["random", "prefix", "prefix", "flip", "flip", "flip", "junk", "ones", "header", "header"])
+    kinds = st.sampled_from(["random", "prefix", "prefix", "flip", "flip", "flip", "junk", "ones", "header", "header", "inflate", "inflate"])
     return st.tuples(specs, kinds, st.booleans()).flatmap(with_bytes)
 
 
